@@ -60,8 +60,8 @@ def _judge_same(ops_, impl, mops, model):
     return dis
 
 
-def _judged(name, ops, oracle, timeout=1500):
-    """impl vs `engine | cs | def`"""
+def _judged(name, ops, oracle, timeout=1500, use_def=True):
+    """impl vs `engine | cs | def` (`use_def=False`: off the curve the windowed defining sum is not what the code promises)"""
 
     def model_ops(ops_, impl):
         out = []
@@ -85,6 +85,8 @@ def _judged(name, ops, oracle, timeout=1500):
                     dis.append(dict(index=i, op=o, impl=a[:300], model=m[:300]))
                 continue
             eng, cs, dfn = parts
+            if not use_def:
+                dfn = a
             if a != dfn:
                 dis.append(dict(index=i, op=o, impl=a[:300],
                                 model="%s   [windowed defining sum; engine models: %s | %s]" % (dfn[:300], eng[:200], cs[:200])))
@@ -184,7 +186,7 @@ def _chunk_stream(ctx):
     rng, q = ctx.rng, ctx.quick
     ops = []
     # (a) small x: every aligned window
-    xs = rng.sample(range(200, 3001), 45 if q else 500)
+    xs = rng.sample(range(200, 3001), 120 if q else 900)
     for x in xs:
         x13, sq = gen.iroot(3, x), gen.isqrt(x)
         for y in sorted({sq, max(7, x13), rng.randint(max(5, x13), sq)}):
@@ -226,14 +228,35 @@ def _chunk_stream(ctx):
         ops.append("toplmopar_chunk %s %d 2 240" % (head, 240 * (t - 1)))
         ops.append("toplmopar_chunk %s 0 %d 240" % (head, z // 240 + 1))
         ops.append("toplmopar_chunk %s 0 1 %d" % (head, 240 * (z // 240 + 1)))
-    # (d) off the curve (mirror only: y*y > x or z != x / y): engine vs code vs the windowed sum computed with that z
     return _judged("toplmo-chunks", ops, False)
+
+
+def _offcurve_stream(ctx):
+    """mirror only (engine + bit-exact sieve engine): y*y > x, z != x / y, windows starting beyond z"""
+    rng, q = ctx.rng, ctx.quick
+    ops = []
+    for x in list(range(30, 90)) + gen.structured_x(rng, 90, 10 ** 6 if q else 10 ** 7, 60 if q else 600):
+        sq = max(2, gen.isqrt(x))
+        y = rng.choice((sq + 1, sq + rng.randint(1, sq), min(x, 3 * sq), rng.randint(max(2, gen.iroot(3, x)), sq)))
+        z = rng.choice((x // y, x // y + rng.randint(1, y), max(1, x // y - rng.randint(1, 3)), y, rng.randint(1, 3 * (x // y) + 1)))
+        z = max(1, z)
+        if z > 2 * 10 ** 5:
+            continue
+        c = rng.choice(_cs(rng, y))
+        head = "%d %d %d %d" % (x, y, z, c)
+        size = rng.choice((240, 480, 960))
+        n = z // size + 1 + rng.choice((0, 1, 2))
+        ops.append("toplmopar_row %s 0 %d %d" % (head, size, n))
+        ops.append("toplmopar_chunk %s 0 %d %d" % (head, n, size))
+        ops.append("toplmopar_chunk %s %d %d %d" % (head, size * rng.randint(0, n), rng.randint(1, 4), size))
+        ops.append("toplmo5_S2 %d %d %d" % (x, y, c))
+    return _judged("toplmo-offcurve", ops, False, use_def=False)
 
 
 def _runs_stream(ctx):
     rng, q = ctx.rng, ctx.quick
     ops = []
-    for x in gen.structured_x(rng, 10 ** 4, 10 ** 8 if q else 10 ** 10, 10 if q else 80):
+    for x in gen.structured_x(rng, 10 ** 4, 10 ** 9 if q else 10 ** 11, 14 if q else 80):
         x13, sq = gen.iroot(3, x), gen.isqrt(x)
         y = min(rng.choice((x13, rng.randint(x13, sq), 2 * x13)), sq)
         z = x // y
@@ -264,4 +287,4 @@ def _runs_stream(ctx):
 
 
 def streams(ctx):
-    return [_whole_stream(ctx), _s2_stream(ctx), _chunk_stream(ctx), _runs_stream(ctx)]
+    return [_whole_stream(ctx), _s2_stream(ctx), _chunk_stream(ctx), _offcurve_stream(ctx), _runs_stream(ctx)]
